@@ -31,6 +31,10 @@ def _convert_name_to_convention(
     else:
         cleaned_name = name[underscore_count_start:-underscore_count_end]
 
+    # Without its leading underscores the name would be empty or start with a digit, which is not an identifier
+    if not cleaned_name or cleaned_name[0].isdigit():
+        return name
+
     # Remove underscores and join in camelCase
     name_parts = cleaned_name.split("_")
 
